@@ -53,6 +53,7 @@ Missing == 0
           nca     |-> number of case arguments (0 = no cases),
           cases   |-> sequence of distinct cases, each a tuple of nca value indices,
           overlap |-> TRUE if a case argument is also given in the grid,
+          dup     |-> TRUE if the values given for a grid argument contain two equal values (1 and 1.0 count as equal),
           shuffle |-> BOOLEAN, pool |-> BOOLEAN,
           kind    |-> "nested" | "flat" | "ds" | "df",
           meta    |-> [cattr, cdim, res, attrs, tdim : BOOLEAN]  (a plain constant / a constant named t /
@@ -79,12 +80,12 @@ Init == /\ cfg \in Configs
         /\ out = <<>> /\ hist = <<>>
 
 Reject ==
-    /\ phase = "start" /\ cfg.overlap
+    /\ phase = "start" /\ (cfg.overlap \/ cfg.dup)
     /\ phase' = "rejected"
     /\ UNCHANGED <<cfg, n, settings, order, labels, nsub, finished, calls, got, lin, out, hist>>
 
 Enumerate ==
-    /\ phase = "start" /\ ~cfg.overlap
+    /\ phase = "start" /\ ~cfg.overlap /\ ~cfg.dup
     /\ n' = N
     /\ settings' = Enumeration
     /\ order' = Iota(N)
@@ -190,7 +191,7 @@ Placement ==
 FlatOrder == (phase = "done" /\ cfg.kind = "flat") => out = Iota(n)
 
 (* C02: overlap of case and grid arguments is rejected before anything runs *)
-RejectBeforeRun == (cfg.overlap => calls = <<>> /\ phase \in {"start", "rejected"})
+RejectBeforeRun == ((cfg.overlap \/ cfg.dup) => calls = <<>> /\ phase \in {"start", "rejected"})
 
 (* C02/C03: the axis of a case argument is the sorted union of its values *)
 UnionAxes ==
@@ -224,7 +225,7 @@ EmitCase ==
     Terminal =>
         PrintT(<<"CASE", ToJson([cfg |-> cfg, n |-> n,
                                  settings |-> settings, order |-> order, hist |-> hist,
-                                 calls |-> calls, axes |-> IF cfg.overlap THEN <<>> ELSE Axes,
+                                 calls |-> calls, axes |-> IF cfg.overlap \/ cfg.dup THEN <<>> ELSE Axes,
                                  out |-> out, outcome |-> phase,
                                  attrs |-> DsAttrs, coords |-> DsCoords, cols |-> DfCols])>>)
 =============================================================================
